@@ -59,6 +59,57 @@ def variant_stability(prop, rep, rc_here):
     rep.note(f"thorough: rule set re-run on {len(res)} behaviour-preserving rewrites of the tree ({', '.join(res)}): {len(stable)} gave the identical verdict")
 
 
+def _corpus_one(args):
+    prop, patch, base = args
+    import shutil, tempfile
+    tmp = tempfile.mkdtemp(prefix="vsa-corpus-")
+    try:
+        shutil.copytree(os.path.join(os.environ.get("VSA_REPO_ORIG", "/repo"), "wavespectra"), os.path.join(tmp, "wavespectra"),
+                        ignore=shutil.ignore_patterns("__pycache__", "*.so", "*.o"))
+        r = subprocess.run(["patch", "-p1", "-s", "-d", tmp, "-i", patch], capture_output=True, text=True)
+        if r.returncode:
+            return patch, None
+        env = dict(os.environ, VSA_REPO=tmp, VSA_EVID=os.path.join(tmp, "_e"), VSA_NO_VARIANTS="1")
+        q = subprocess.run([os.path.join(VERIF, "vcheck"), prop], capture_output=True, text=True, env=env, cwd=VERIF, timeout=600)
+        known = sum(1 for l in q.stdout.splitlines() if l.startswith("KNOWN-FINDING"))
+        return patch, (q.returncode, known)
+    finally:
+        shutil.rmtree(tmp, ignore_errors=True)
+
+
+def corpus_stability(prop, rep, base):
+    """Re-run this property's rule set on every independently written behaviour-preserving refactoring kept under neutral/ and on
+    every confirmed property-breaking change kept under seeded/ for this property (non-gating; scratch copies under $TMPDIR)."""
+    if os.environ.get("VSA_NO_VARIANTS") or os.environ.get("VSA_REPO"):
+        return
+    import concurrent.futures as cf
+    import glob
+    neutral = sorted(glob.glob(os.path.join(VERIF, "neutral", "C*", "ref*", "patch.diff")))
+    seeded = sorted(glob.glob(os.path.join(VERIF, "seeded", f"{prop}-*", "patch.diff")))
+    jobs = [(prop, p, base) for p in neutral + seeded]
+    if not jobs:
+        return
+    res = {}
+    with cf.ProcessPoolExecutor(max_workers=12) as ex:
+        for p, r in ex.map(_corpus_one, jobs):
+            res[p] = r
+    same = [p for p in neutral if res.get(p) == base]
+    rep.analysed["neutral_corpus_tried"] = len(neutral)
+    rep.analysed["neutral_corpus_same_verdict"] = len(same)
+    for p in neutral:
+        if res.get(p) is not None and res[p] != base:
+            rep.note(f"thorough (non-gating, CHECKER defect): verdict {base}->{res[p]} on behaviour-preserving refactoring {os.path.relpath(p, VERIF)}")
+    caught = [p for p in seeded if res.get(p) and res[p][0] == 1]
+    rep.analysed["seeded_changes_for_this_property"] = len(seeded)
+    rep.analysed["seeded_changes_reported"] = len(caught)
+    for p in seeded:
+        if p not in caught:
+            rep.note(f"thorough: seeded change {os.path.relpath(os.path.dirname(p), VERIF)} is NOT reported by this check (documented miss, DESIGN 10.3)"
+                     if res.get(p) and res[p][0] == 0 else f"thorough: seeded change {os.path.relpath(os.path.dirname(p), VERIF)} -> {res.get(p)}")
+    rep.note(f"thorough: {len(same)}/{len(neutral)} independent neutral refactorings keep the verdict; {len(caught)}/{len(seeded)} seeded "
+             f"property-breaking changes for {prop} are reported")
+
+
 def extras(prop, repo, rep):
     if prop in NATIVE:
         clang_analyze(repo, rep)
